@@ -207,7 +207,9 @@ class Judge:
         if m in UNKNOWN_VALUES and got in UNKNOWN_VALUES[m]:
             return True
         if m in LIST_METHODS and base and base.get("cls") == "ok" and isinstance(got, dict) and "l" in got:
-            return all(x in base["val"]["l"] for x in got["l"])
+            # an entry (thread, file) that went away while the list was built may be left out -- the
+            # system says so with ENOENT; ESRCH is about the process itself and is never "recovered"
+            return row["e"] != "ESRCH" and all(x in base["val"]["l"] for x in got["l"])
         return False
 
     def judge(self, plat, row, out, ans, via="module"):
